@@ -76,7 +76,8 @@ UNSUPPORTED = ("'MosaicReference' object has no attribute", "'OwnChildReference'
 
 
 def plan(tier, seed):
-    n = NCASES[tier]
+    from vlib.runner import scaled
+    n = scaled(NCASES[tier])   # VERIF_SCALE: development aid only
     return [dict(start=i, stop=min(n, i + CHUNK)) for i in range(0, n, CHUNK)]
 
 
@@ -118,6 +119,12 @@ class Bench:
         self.periodic = bool(history['mesh'].get('periodic')) or any(op.get('op') == 'mul' and op.get('periodic') for op in history['ops'])
         self.xmax = 1.
         self.quad = history['geom']['kind'] == 'quad'
+        # period of every root-geometry coordinate (0 = not periodic); a mul operation appends a coordinate
+        ticks = topogen.mesh_ticks(history['mesh'])
+        per = history['mesh'].get('periodic')
+        axes = ([0] if per is True else list(per or [])) if history['mesh']['kind'] in ('line', 'rect', 'tensor') else []
+        self.periods = [float(t[-1] - t[0]) if k in axes else 0. for k, t in enumerate(ticks)]
+        self.periods += [float(op['n']) if op.get('periodic') else 0. for op in history['ops'] if op.get('op') == 'mul']
 
     def _get(self, what, topo, geom, fn):
         key = (what, id(topo), id(geom))
@@ -506,25 +513,28 @@ class Monitors:
             if full:
                 n = function.normal(geom)
                 funcs += [n * J, geom[:, None] * n[None, :] * J]
+            root = geom0 * Js   # position in root coordinates: single-valued up to a period, used to match pieces across a periodic seam
             if len(g):
                 self.res.count('integrals')
-                return len(g), [numpy.asarray(v) for v in g.integrate(funcs, degree=self.bench.deg)], g, funcs
-            return 0, [numpy.zeros(()), numpy.zeros(D)] + ([numpy.zeros(D), numpy.zeros((D, D))] if full else []), g, funcs
+                return len(g), [numpy.asarray(v) for v in g.integrate(funcs, degree=self.bench.deg)], g, funcs, root
+            return 0, [numpy.zeros(()), numpy.zeros(D)] + ([numpy.zeros(D), numpy.zeros((D, D))] if full else []), g, funcs, root
         return self.bench._get('cut:' + name, part, geom, fn)
 
     def cut_pieces(self, part, c):
         """per piece of the group: (measure, centroid, remaining integrals..., degenerate owner?)"""
-        n, vals, g, funcs = c
+        n, vals, g, funcs, root = c
         if not n:
             return []
         self.res.count('integrals')
-        ev = [numpy.asarray(v) for v in g.integrate_elementwise(funcs, degree=self.bench.deg)]
+        ev = [numpy.asarray(v) for v in g.integrate_elementwise(list(funcs) + [root], degree=self.bench.deg)]
+        c0 = ev.pop()
         refs = part.references
         out = []
         for k, t in enumerate(g.transforms):
             own = int(part.transforms.index_with_tail(t)[0])
             a = float(ev[0][k])
-            out.append(dict(a=a, c=ev[1][k] / a if a else ev[1][k], vals=[v[k] for v in ev], degenerate=_degenerate(refs[own]), own=own))
+            out.append(dict(a=a, c=ev[1][k] / a if a else ev[1][k], c0=c0[k] / a if a else c0[k], vals=[v[k] for v in ev],
+                            degenerate=_degenerate(refs[own]), own=own))
         return out
 
     def cut_match(self, pos, neg, cp, cn, sc):
@@ -538,10 +548,19 @@ class Monitors:
         used = set()
         sums = [[numpy.zeros_like(numpy.asarray(v, dtype=float)) for v in cp[1]] for _ in range(2)]
         unmatched = []
+        periods = numpy.array((self.bench.periods + [0.] * len(pp[0]['c0']))[:len(pp[0]['c0'])]) if pp else numpy.zeros(0)
+
+        def same_place(p, q):
+            # root coordinates, modulo the period along periodic axes: a face on the periodic seam sits at y=0 seen from one element and
+            # at y=period seen from its neighbour (the mapped geometry is double-valued there)
+            d = numpy.abs(p['c0'] - q['c0'])
+            d = numpy.where(periods > 0, numpy.minimum(d, numpy.abs(d - periods)), d)
+            return d.max() <= tol
+
         for p in pp:
             best = None
             for j, q in enumerate(pn):
-                if j not in used and numpy.abs(p['c'] - q['c']).max() <= tol and abs(p['a'] - q['a']) <= 1e-7 * max(1., p['a']):
+                if j not in used and same_place(p, q) and abs(p['a'] - q['a']) <= 1e-7 * max(1., p['a']):
                     best = j
                     break
             if best is None:
@@ -870,7 +889,8 @@ def _element_defects(mon, topo, geom, geom0):
 
 def known_retrim(mon, history, step, monitors):
     """Predicate for the open finding C10-retrimmed-3d-mosaic-inconsistent.  All of:
-    * the failing step is a trim of a 3-D topology, and only the trim partition / shared cut / element closure / boundary closure monitors fail;
+    * the failing step is a trim of a 2-D or 3-D topology (first seen in 3-D; in 2-D it needs a saddle of the first level set inside one element),
+      and only the trim partition / shared cut / element closure / boundary closure monitors fail;
     * in pos, base-pos and trim(-levelset) every element that is not closed by its own edges is a 3-D mosaic of a mosaic
       (an element of the base that was already cut at this level and is cut again), and there is at least one;
     * every base element whose measure is not partitioned is the parent of such an element;
@@ -885,8 +905,8 @@ def known_retrim(mon, history, step, monitors):
     info = step.info
     geom, geom0 = mon.mgeom(step), step.geom0
     base, pos = info['base'], info['pos']
-    if base.ndims != 3 or geom.shape[0] != 3:
-        return False, 'not 3-D'
+    if base.ndims < 2 or geom.shape[0] != base.ndims:
+        return False, 'not a full-dimensional 2-D/3-D topology'
     vb = mon.bench.vol(base, geom)
     if vb is None or vb['vol_e'] is None:
         return False, 'no element measures'
@@ -930,7 +950,7 @@ def known_retrim(mon, history, step, monitors):
         ok = numpy.abs(e['z_el'].sum(0) - b['z']).max() <= 1e-9 * s and abs(e['f_el'].sum() - (b['flux'] - i['jumpn'])) <= 1e-9 * s
         if not ok:
             return False, 'boundary integrals differ from the summed element edge integrals'
-    return True, f'{ndefect} element(s) cut a second time (3-D mosaic of a mosaic, children of base elements {sorted(culprits)}) are not closed by their own edges; everything else is consistent'
+    return True, f'{ndefect} element(s) cut a second time (mosaic of a mosaic, children of base elements {sorted(culprits)}) are not closed by their own edges; everything else is consistent'
 
 
 def _degenerate(ref):
@@ -1377,9 +1397,10 @@ def finalize(m, tier, seed):
     need = ['refine_elementwise', 'selection_elementwise', 'trim_partition', 'trim_elementwise', 'trim_cut_nonempty', 'closure_normal', 'closure_flux',
             'interfaces_resolved', 'face_ledger', 'element_closure', 'connectivity', 'connectivity_centroids', 'connectivity_subset_model', 'connectivity_vs_interfaces',
             'trim_union', 'negated_trim', 'periodic_jumps']
-    floor = 20 if tier == 'quick' else 200
-    opfloor = 3 if tier == 'quick' else 20
-    if cov['evaluations'] < min(MINCASES[tier], NCASES[tier]):
+    from vlib.runner import scaled
+    floor = scaled(20 if tier == 'quick' else 200)
+    opfloor = scaled(3 if tier == 'quick' else 20)
+    if cov['evaluations'] < min(scaled(MINCASES[tier]), scaled(NCASES[tier])):
         inc = f"only {cov['evaluations']} of {NCASES[tier]} histories ran before the deadline"
     elif [k for k in need if mon.get(k, 0) < floor]:
         inc = 'monitors barely reached: ' + ', '.join(f'{k}={mon.get(k, 0)}' for k in need if mon.get(k, 0) < floor)
@@ -1389,8 +1410,8 @@ def finalize(m, tier, seed):
         inc = f"{cov['monitor_errors']} monitor errors / {cov['harness_exceptions']} harness exceptions: {cov['monitor_error_signatures'][:3]}"
     elif cov['marginal'] > 0.005 * max(1, cov['comparisons']):
         inc = f"{cov['marginal']} of {cov['comparisons']} comparisons fell in the marginal band"
-    elif sum(cov['scenarios'].values()) < (15 if tier == 'quick' else 100):
+    elif sum(cov['scenarios'].values()) < scaled(15 if tier == 'quick' else 100):
         inc = f"periodic-slice scenarios barely sampled: {cov['scenarios']}"
-    elif cov['dimensions'].get('3', 0) < 10:
+    elif cov['dimensions'].get('3', 0) < scaled(10):
         inc = '3-D histories barely sampled'
     return dict(coverage=cov, inconclusive=inc)
